@@ -164,6 +164,19 @@ CHECKS.update({
             "DESIGN.md §4 C09"),
 })
 
+CHECKS.update({
+    "C08": (True, "site rules with resolved calls: delegation wiring, sibling agreement of grid reconstructions, "
+                  "nearest-node selection pattern",
+            "NARROW clause-level claim — the weakest of the suite. The quantitative statement (sampled values within half a "
+            "grid step of the true landscape, exact on-grid, interpolation exact) quantifies over runtime values and is NOT "
+            "decided. Decided: GL-FWD (transformer forwards its own parameters and returns .values / flattened), GL-GRID "
+            "(every site rebuilding a landscape's grid uses linspace(start, stop, num_steps) with the default end-point), "
+            "GL-SNAP (nearest node per coordinate, same axis), GL-DV (descending deaths, hom_deg 0 only), GL-INF.",
+            "Trusted: np.linspace / np.interp semantics. Rules are tied to the present structure (delegation to "
+            "PersLandscapeApprox); a restructuring yields refutations only for the listed deviations, otherwise exit 2.",
+            "DESIGN.md §4 C08"),
+})
+
 NOT_APPLICABLE = {
     "C05": "soundness of the mGH lower/upper bounds is a theorem about computed values for every graph pair and RNG "
            "draw; no ownership, ordering, wiring or algebraic-type argument implies it (DESIGN.md §6); nearby "
